@@ -172,6 +172,9 @@ pub struct BackendRun {
     sealed_done: bool,
     /// protocol lines to append to ops.txt after the current one
     pub extra_ops: Vec<String>,
+    /// per handle: how many versions were accepted when the handle last made a call (what a handle
+    /// that caches the chain head would still believe)
+    pub seen: Vec<usize>,
     /// fault armed for the next add_version / add_snapshot / sync of a handle: (handle, spec)
     pub armed: Option<(usize, String)>,
     /// replicas of the replica-level rounds (`EP` lines), created on first use
@@ -256,6 +259,7 @@ impl BackendRun {
             extra_ops: Vec::new(),
             armed: None,
             replicas: Vec::new(),
+            seen: vec![0; nhandles],
         };
         match kind {
             Kind::Local | Kind::GitLocal => {
@@ -446,6 +450,17 @@ impl BackendRun {
     }
 
     pub fn exec(&mut self, line: &str) -> (String, String) {
+        let r = self.exec1(line);
+        let toks: Vec<&str> = line.split_whitespace().collect();
+        if let (Some(c), Some(h)) = (toks.first(), toks.get(1).and_then(|h| h.parse::<usize>().ok())) {
+            if ["AV", "GC", "AS", "GS", "REOPEN"].contains(c) && h < self.seen.len() {
+                self.seen[h] = self.accepted.len();
+            }
+        }
+        r
+    }
+
+    fn exec1(&mut self, line: &str) -> (String, String) {
         let toks: Vec<&str> = line.split_whitespace().collect();
         match toks.as_slice() {
             ["H", _] => (line.to_string(), String::new()),
@@ -677,8 +692,16 @@ pub fn gen_line(run: &mut BackendRun, rng: &mut Rng, nhandles: usize, nver: &mut
         }
     };
     let _ = nver;
+    // what this handle saw as the latest version when it last made a call
+    let stale = run.seen.get(h as usize).cloned().unwrap_or(0);
     match rng.below(20) {
-        0..=7 => format!("AV {} {} {}", h, some_parent(rng), pl(rng)),
+        0..=7 => {
+            if stale != latest && rng.below(2) == 0 {
+                format!("AV {} {} {}", h, if stale == 0 { "nil".to_string() } else { format!("v{}", stale) }, pl(rng))
+            } else {
+                format!("AV {} {} {}", h, some_parent(rng), pl(rng))
+            }
+        }
         8..=13 => format!("GC {} {}", h, some_parent(rng)),
         14 | 15 => {
             if run.kind == Kind::Local || latest == 0 {
